@@ -151,9 +151,27 @@ def audit(prop, module, theorems):
     return ok, problems, axioms
 
 
-def grep_forbidden():
+def local_closure(module):
+    """Files of this project that `module` imports, transitively (plus all model/spec files)."""
+    seen, todo = set(), [module] if module else []
+    while todo:
+        m = todo.pop()
+        f = LEAN / (m.replace(".", "/") + ".lean")
+        if m in seen or not f.exists():
+            continue
+        seen.add(m)
+        for im in re.findall(r"^import (Robotools\.\S+)", f.read_text(), re.M):
+            todo.append(im)
+    files = {LEAN / (m.replace(".", "/") + ".lean") for m in seen}
+    for sub in ("Model", "Spec", "Generated"):
+        files |= set((LEAN / "Robotools" / sub).glob("*.lean"))
+    files.add(LEAN / "Robotools" / "Proofs" / "GenOK.lean")
+    return sorted(files)
+
+
+def grep_forbidden(module=None):
     hits = []
-    for f in (LEAN / "Robotools").rglob("*.lean"):
+    for f in local_closure(module):
         txt = f.read_text()
         # strip comments
         txt = re.sub(r"/-.*?-/", "", txt, flags=re.S)
@@ -233,7 +251,7 @@ def main():
         else:
             ok_names, problems, axioms = audit(prop, module, theorems)
             broken += problems
-    forb = grep_forbidden()
+    forb = grep_forbidden(module)
     if forb:
         broken += [f"forbidden construct: {h}" for h in forb]
 
